@@ -1,4 +1,7 @@
 """C42 CatchScheduler routes action exceptions to its handler."""
+import types
+
+from simlib import vt
 from simlib.core import Outcome
 
 from reactivex.disposable import Disposable
@@ -64,7 +67,8 @@ class Prop:
     def run(self, sc, catch, fault, verdict):
         """fault = [action id, tick] or None.  In the bare run the faulting action returns normally
         instead of raising and emulates what the statement promises for the verdict."""
-        inner = VirtualTimeScheduler(0.0)
+        inner = vt.CountingVTS(0.0)
+        inner.world = types.SimpleNamespace(now=lambda: float(inner.clock))
         handled = []
 
         def handler(ex):
@@ -89,8 +93,7 @@ class Prop:
                         if catch:
                             raise Boom((aid, k))
                         state["failed"] = True
-                        if verdict:
-                            pdisp[aid].dispose()
+                        pdisp[aid].dispose()  # handled: CatchScheduler stops it; propagated: a periodic action that raised is not rescheduled (C35)
                         return st
                     if k + 1 >= a["ticks"]:
                         pdisp[aid].dispose()
@@ -124,7 +127,7 @@ class Prop:
             except Boom as e:
                 escaped.append(e.aid)
                 inner.stop()
-        return log, handled, escaped
+        return log, handled, escaped, len(inner.lib_actions)
 
     def execute(self, sc):
         if "fault" in sc:
@@ -170,6 +173,9 @@ class Prop:
         exp_escaped = exp_handled if not verdict else []
         if [tuple(x) for x in got[2]] != exp_escaped:
             out.bad("propagation", "%s: exceptions out of start(): %s, expected %s" % (desc, got[2], exp_escaped))
+            return
+        if got[3] != want[3]:
+            out.bad("inner-work-differs", "%s: the inner scheduler ran %d actions under CatchScheduler, %d for the same tree on the bare scheduler (periodic work not stopped?)" % (desc, got[3], want[3]))
 
 
 def _shape(roots):
